@@ -13,6 +13,9 @@ Harness (real code, bitwise): each script is run once in a fresh process (refere
   `while iterate_n(0): …`),
 * after the caller edited its own RDScript object (seed, time step) following a run: the script stored in the earlier
   trajectory still reproduces it,
+* after a persistence round trip of the script (rdscript_to_dict/from_dict, save/load, from the caller's script or from
+  trajectory.script) with parameters of 15-17 significant digits (1/300, '12.3456789 ms', t_max = n*dt + 1.234e-8),
+* scripts built WITHOUT a seed whose seed nobody reads before setup (the harness does not either),
 * tau-leap on grids with channel means >= 12 per step (tens of thousands of molecules per cell: the normal-approximation
   branch of std::poisson_distribution), repeated four times and after other such runs in the same process.
 Oracle: bitwise equality (sha1 of t.tobytes() + data.tobytes()) with the reference.
@@ -94,6 +97,24 @@ def run(ctx):
                                     "units_system": {"time": "s", "space": "µm", "quantity": "molecule"}}}
         info = {"option": "tauleap", "policy": S["kw"]["sampling_policy"], "space": "grid", "bigmean": True, "nsp": 2, "n": ncell}
         entries.append({"S": S, "info": info, "option": "tauleap", "eng": "tauleap", "idx": n + b, "bigmean": True})
+    # parameters with more than 6 significant digits (15-17), for the persistence routes (dict / file / trajectory.script)
+    for b in range(ctx.n(4, 16)):
+        option = lc.OPTIONS[b % 3]
+        S, info = lc.gen_script(rng, option, max_steps=60 if option != "gillespie" else 20, policy=lc.POLICIES[b % 3], units=False, dyadic=False)
+        base = rng.choice([1.0 / 300.0, 0.0123456789, 1.0 / 70.0, 0.010000001234])
+        nst = rng.randint(5, 40)
+        if b % 2 == 0:
+            S["kw"]["time_step"] = base
+            S["kw"]["t_max"] = base * nst + 1.234e-8
+            S["kw"]["sampling_interval"] = base * 3 + 1e-9
+        else:
+            S["kw"]["time_step"] = "%r ms" % (base * 1000.0)
+            S["kw"]["t_max"] = "%r ms" % ((base * nst + 1.234e-8) * 1000.0)
+            S["kw"]["sampling_interval"] = "%r ms" % ((base * 3 + 1e-9) * 1000.0)
+        S["kw"]["t_sample"] = [0.0, base * (nst // 2) + 1e-9, base * nst]
+        S["kw"].pop("__from_dict__", None)
+        info["digits"] = True
+        entries.append({"S": S, "info": info, "option": option, "eng": option, "idx": n + 200 + b, "digits": True})
     # Euler engines built with requires_molecules=True on spaces with several cells, non-integer amounts, "auto" processing
     for b in range(ctx.n(3, 12)):
         S, info = lc.gen_script(rng, "euler", max_steps=40, mode="auto", policy=rng.choice(["on_iteration", "on_t_sample", "on_interval"]),
@@ -139,6 +160,8 @@ def run(ctx):
         others = [o for o in good if o is not e]
         for v in range(nsched):
             kind = KINDS[v] if v < len(KINDS) else rng.choice(["schedule", "after_others", "reused", "simulate", "twice", "poll_reused", "edit_resim"])
+            if e.get("digits"):
+                kind = ["persist:dict", "persist:file", "persist:traj_dict", "persist:traj_file", "noseed", "schedule"][v % 6]
             if e.get("bigmean"):
                 kind = ["repeat4", "after_others", "reused", "twice", "resim", "poll_reused"][v % 6]
                 others = [o for o in good if o is not e and o.get("bigmean")] or others
@@ -182,6 +205,13 @@ def run(ctx):
                           {"obj": 0, "call": "setup", "script": 0, "peek": True},
                           {"obj": 0, "call": "poll", "how": how, "step": step, "max": 100000},
                           {"obj": 0, "call": "get_output", "full": True}, {"obj": 0, "call": "finalize"}]
+            elif kind.startswith("persist:"):
+                # run, put the script (or the one stored in the trajectory) through rdscript_to_dict/from_dict or save/load,
+                # re-run the result on a new engine object: bit-identical
+                route = kind.split(":")[1]
+                calls += [{"obj": 0, "call": "simulate", "script": 0},
+                          {"obj": 0, "call": "roundtrip", "script": 0, "to": 1, "route": route},
+                          {"obj": 0, "call": "new"}, {"obj": 0, "call": "simulate", "script": 1}]
             elif kind == "edit_resim":
                 # a sweep re-using one RDScript object: run, then the caller edits ITS script; the script stored in the
                 # first trajectory must still reproduce it
@@ -248,6 +278,17 @@ def run(ctx):
         changed = [(c["call"], x["script_changed"]) for c, x in zip(j["calls"], r["results"]) if x.get("script_changed")]
         if changed:
             ctx.violation("script-modified", "%s() changed the caller's script (%s)" % (changed[0][0], changed[0][1][0]["field"]), case, impl=changed[0][1][:3], expected=[])
+        if kind.startswith("persist:"):
+            rt = [x["ret"] for c, x in zip(j["calls"], r["results"]) if c["call"] == "roundtrip"][0]
+            if outs[-1]["hash"] != outs[0]["hash"]:
+                lost = [f for f in ("time_step", "t_max", "sampling_interval") if rt[f] != rt["src_" + f]]
+                ctx.violation("persisted-script:%s" % kind.split(":")[1], "the script after %s does not reproduce the trajectory of the original%s" % (
+                    {"dict": "rdscript_to_dict / rdscript_from_dict", "file": "save_rdscript / load_rdscript", "traj_dict": "trajectory.script -> to_dict / from_dict",
+                     "traj_file": "trajectory.script -> save / load"}[kind.split(":")[1]],
+                    (" (%s: %s became %s)" % (lost[0], rt["src_" + lost[0]], rt[lost[0]])) if lost else ""), case, impl=outs[-1]["hash"], expected=outs[0]["hash"])
+            if outs[0]["hash"] != e["ref"]["hash"]:
+                ctx.violation("bitwise:simulate", "trajectory of simulate_script differs bitwise from the reference", case, impl=outs[0]["hash"], expected=e["ref"]["hash"])
+            continue
         if kind == "edit_resim":
             ed = [x["ret"] for c, x in zip(j["calls"], r["results"]) if c["call"] == "edit_script"][0]
             if ed["stored_seed"] != ed["seed_before"]:
@@ -340,6 +381,8 @@ def replay(ctx, rec):
     if changed:
         detail["script_changed"] = changed[0]
         return False, detail
+    if str(job.get("kind", "")).startswith("persist:"):
+        return (len(outs) >= 2 and outs[-1]["hash"] == outs[0]["hash"]), detail
     if job.get("kind") == "edit_resim":
         ed = [x["ret"] for c, x in zip(job["calls"], r["results"]) if c["call"] == "edit_script" and "ret" in x]
         detail["edit"] = ed
